@@ -294,7 +294,7 @@ def npoint_event(r):
               pressure_points=[10.0 ** k for k in pd[1:-1]], smoothing_window=r['sw'])
     outcome, prof, detail = evaluate('npoint', kw, n, P)
     e = dict(ev='npoint', n=n, pa=r['pa'], pb=r['pb'], tn=list(tn), pd=list(pd), sw=r['sw'], S=1000, tol=1, outcome=outcome, v=[])
-    if outcome == 'ok' and prof.shape == (n,) and np.all(np.isfinite(prof)):
+    if outcome == 'ok' and prof.shape == (n,) and np.all(np.isfinite(prof)) and np.all(np.abs(prof) < 1e5):
         e['v'] = [int(round(x / 100.0 * 1000)) for x in prof]
     return e, '%s %s' % (outcome, detail)
 
@@ -523,6 +523,8 @@ def validate(ctx, recipes, label, canary=True):
                 cl.append(c)
                 break
         if not cl:
+            if badids:       # every candidate was rejected already: TLC demonstrably rejects, nothing to corrupt
+                return len(events)
             raise Machinery('no event available for the canary (%s)' % label)
         for k, c in enumerate(cl):
             c['id'] = k
